@@ -110,4 +110,34 @@ LEMMAS = {
             'forall(l, 0, n3, forall(v, (v in elems(lec[l])) == (1 <= v and v <= len(pls) and '
             'exists(proj, proj in elems(pls[v - 1]) and PL[proj - 1] == l + 1))))'),
            ('each-student-once', 'forall(l, 0, n3, dupfree(lec[l]))')]),
+
 }
+
+# ---- C16: counting lemma over the nine criterion slots ("two criteria share a position" <=> fewer occupied positions
+#      than requested criteria).  z3 cannot do the pigeonhole argument in one query, so it is staged: one generic step
+#      (adding a slot to an arbitrary occupancy vector) instantiated nine times, then linear arithmetic.
+_N = 9
+def _sum(ts): return '(' + ' + '.join('ite(%s, 1, 0)' % t for t in ts) + ')'
+LEMMAS['C16/occupy-step'] = dict(
+    vars=dict([('o%d' % i, 'bool') for i in range(1, _N + 1)] + [('p', 'bool'), ('q', 'int')]),
+    hyps=['implies(p, 1 <= q and q <= %d)' % _N],
+    goals=[('adding-a-slot',
+            _sum('o%d or (p and q == %d)' % (i, i) for i in range(1, _N + 1)) + ' == ' + _sum('o%d' % i for i in range(1, _N + 1)) +
+            ' + ite(p and not (' + ' or '.join('(q == %d and o%d)' % (i, i) for i in range(1, _N + 1)) + '), 1, 0)')])
+_defs = {}
+for _k in range(0, _N + 1):       # occ_k(i): position i is taken by one of the first k slots
+    _defs['occ%d' % _k] = (['i'], ' or '.join(['False'] + ['(p%d and q%d == i)' % (u, u) for u in range(_k)]))
+    _defs['cnt%d' % _k] = ([], _sum('occ%d(%d)' % (_k, i) for i in range(1, _N + 1)))
+for _s in range(_N):
+    _defs['first%d' % _s] = ([], ' and '.join(['True'] + ['not (p%d and q%d == q%d)' % (u, u, _s) for u in range(_s)]))
+_defs['distinct'] = ([], ' and '.join('implies(p%d and p%d, q%d != q%d)' % (s, u, s, u) for s in range(_N) for u in range(s + 1, _N)))
+LEMMAS['C16/pigeonhole'] = dict(
+    vars=dict([('p%d' % s, 'bool') for s in range(_N)] + [('q%d' % s, 'int') for s in range(_N)]),
+    defs=_defs,
+    hyps=['implies(p%d, 1 <= q%d and q%d <= %d)' % (s, s, s, _N) for s in range(_N)],
+    uses=[('C16/occupy-step', dict([('o%d' % i, 'occ%d(%d)' % (k, i)) for i in range(1, _N + 1)] + [('p', 'p%d' % k), ('q', 'q%d' % k)]))
+          for k in range(_N)],
+    goals=[('stage%d' % (k + 1), 'cnt%d() == cnt%d() + ite(p%d and first%d(), 1, 0)' % (k + 1, k, k, k), 'then-assume') for k in range(_N)] +
+          [('occupied-count', 'cnt%d() == ' % _N + _sum('p%d and first%d()' % (s, s) for s in range(_N)), 'then-assume'),
+           ('fewer-occupied-than-requested-iff-shared-position',
+            '(cnt%d() == ' % _N + _sum('p%d' % s for s in range(_N)) + ') == distinct()')])
